@@ -297,3 +297,41 @@ func (b *optBuf) badCached(pr props) *optBad {
 	b.bad = append(b.bad, p)
 	return p
 }
+
+// ---- R-SCRATCH: a scratch map kept in a reusable object and lent to helpers
+
+type crible map[string]int
+
+func (c crible) reset() {
+	for k := range c {
+		delete(c, k)
+	}
+}
+
+type matcher struct {
+	scratch crible
+	pool    crible
+}
+
+func (m *matcher) query(families []string) int {
+	return selectGood(families, m.scratch) + selectForward(families, m.scratch) + selectBad(families[0], m.pool)
+}
+
+func selectGood(families []string, c crible) int {
+	c.reset()
+	for i, f := range families {
+		c[f] = i
+	}
+	return len(c)
+}
+
+// only hands the map to a function that empties it first
+func selectForward(families []string, c crible) int { return selectGood(families, c) }
+
+// borrows the map assuming it is empty
+func selectBad(family string, c crible) int {
+	c[family] = 0
+	n := len(c)
+	delete(c, family)
+	return n
+}
